@@ -188,8 +188,57 @@ def check(run: Run) -> None:
         if "std::max(layout.size,branch_layout.size)" not in txt.replace(" ", "") or "std::max(layout.alignment,branch_layout.alignment)" not in txt.replace(" ", ""):
             run.finding("C12.g", "switch_graph_slot_layout:max", f"size and alignment must be the maximum over the branches: {txt}", loc=SW)
 
+    with run.obligation("C12.h", "K1", "reset_switch_output (teardown of the output the stopped branch wrote into): returns iff the node has no output or it is unbound; a "
+                        "reference output becomes the empty reference; EVERY other output shape is cleared as a whole (no shape keeps the old branch's values)"):
+        fa = R.fn(run, SW, "reset_switch_output")
+        O = r"view\.output\(evaluation_time\)"
+        roles = [Role("HASOUT", "bool", r"view\.has_output\(\)"), Role("BOUND", "bool", O + r"\.bound\(\)"),
+                 Role("NOSCHEMA", "bool", O + r"\.schema\(\)==nullptr|nullptr==" + O + r"\.schema\(\)"),
+                 Role("ISREF", "bool", O + r"\.schema\(\)->kind==TSTypeKind::REF|TSTypeKind::REF==" + O + r"\.schema\(\)->kind")]
+
+        def spec(v):
+            if not v.b("HASOUT") or not v.b("BOUND"):
+                return Expect(calls=[])
+            if (not v.b("NOSCHEMA")) and v.b("ISREF"):
+                return Expect(calls=[("EMPTYREF", (ANY,))])
+            return Expect(calls=[("CLEAR", ("evaluation_time",))])
+        R.k1(run, "C12.h", fa, roles, spec, role_calls={"EMPTYREF": r".*move_value_from|.*copy_value_from", "CLEAR": r".*clear_collection"}, what="reset_switch_output")
+        # the reset is part of the teardown of the old branch in the write-into-switch-output mode
+        fa = R.fn(run, SW, "switch_teardown")
+        if not R.calls(fa, "reset_switch_output"):
+            run.finding("C12.h", "switch_teardown:no-output-reset", "tearing the old branch down must reset the output it wrote into", loc=SW)
+
+    with run.obligation("C12.i", "K7", "outer time-series slots of switch_ / dispatch_: positional arguments first, then keyword arguments in call order - the slot of the "
+                        "i-th keyword argument is positional_count + i in both wiring functions (a branch parameter named by a keyword must not be fed from a "
+                        "positional sibling)"):
+        HO = "include/hgraph/lib/std/operators/impl/higher_order_impl.h"
+        n = 0
+        for fd in t.file(HO).funcs:
+            if fd.body is None or fd.name not in ("wire_switch", "wire_dispatch"):
+                continue
+            fa = R.parse(run, fd, strict=False)
+            cn = R.aliases_of(fa)
+            for l in R.loops(fa):
+                if not isinstance(l, C.For):
+                    continue
+                sh = R.loop_shape(l, cn)
+                for c in R.calls(l.body, "emplace_back"):
+                    if not cn(c.fn).endswith("named_slots.emplace_back") or len(c.args) != 2:
+                        continue
+                    n += 1
+                    run.count(1, f"C12.i.{fd.name}")
+                    idx = cn(c.args[1]).replace(" ", "")
+                    v = sh.get("var")
+                    pushes = [cn(p.args[0]) for p in R.calls(l.body, "push_back") if cn(p.fn).endswith("ts.push_back")]
+                    if idx not in (f"positional_count+{v}", f"{v}+positional_count") or cn(c.args[0]) != f"kwargs[{v}].first" or pushes != [f"kwargs[{v}].second"]:
+                        run.finding("C12.i", f"{fd.name}:keyword-slot", f"{fd.qual}: keyword argument {v} must occupy outer slot positional_count + {v} (name kwargs[{v}].first, "
+                                    f"source kwargs[{v}].second appended); found slot `{idx}`, name `{cn(c.args[0])}`, appended {pushes}", loc=fa.loc(c))
+        run.sites(n, 2, "keyword slot assignments")
+
 
 VARIANTS = [
+    {"id": "h-bundle-output-not-cleared", "expect": "C12.h", "edits": [{"file": SW, "find": "  static_cast<void>(output.data_view().clear_collection(evaluation_time));\n}", "replace": "  if (output.schema() == nullptr || (output.schema()->kind != TSTypeKind::TSD && output.schema()->kind != TSTypeKind::TSS)) {\n    return;\n  }\n  static_cast<void>(output.data_view().clear_collection(evaluation_time));\n}"}]},
+    {"id": "i-keyword-args-on-positional-slots", "expect": "C12.i", "edits": [{"file": "include/hgraph/lib/std/operators/impl/higher_order_impl.h", "find": "                named_slots.emplace_back(kwargs[i].first, positional_count + i);\n                ts.push_back(kwargs[i].second);\n            }\n\n            const TSValueTypeMetaData *output_schema = nullptr;", "replace": "                named_slots.emplace_back(kwargs[i].first, i);\n                ts.push_back(kwargs[i].second);\n            }\n\n            const TSValueTypeMetaData *output_schema = nullptr;"}]},
     {"id": "g-default-branch-not-in-layout", "expect": "C12.g", "edits": [{"file": SW, "find": "  if (spec.default_branch.has_value()) {\n    include_layout(*spec.default_branch);\n  }\n  return layout;", "replace": "  return layout;"}]},
     {"id": "d-inputs-bound-unsampled", "expect": "C12.d", "edits": [{"file": SW, "find": "  bind_branch_inputs(view, spec, next, evaluation_time, true);", "replace": "  bind_branch_inputs(view, spec, next, evaluation_time);"}]},
     {"id": "a-reselect-on-every-tick", "expect": "C12.a", "edits": [{"file": SW, "find": "    if (!storage.active_slot.has_value() || context.spec.reload_on_ticked ||\n        !same_key) {", "replace": "    if (!storage.active_slot.has_value() || context.spec.reload_on_ticked ||\n        !same_key || key_input.modified()) {"}]},
